@@ -243,6 +243,23 @@ CHECKS.update({
     ),
 })
 
+CHECKS.update({
+    "C11": dict(
+        level="model_checking", engine="vsched",
+        text="38 (thorough: 42) programs whose folded constants meet run-time values (lazy, eager, nested and map-embedded list constants indexed, appended, sorted, "
+             "compared, searched; constant maps, closures, strings; recursion; failing accesses) are generated freshly inside every execution and evaluated by T=2 "
+             "(thorough: 2,3) vthreads at once with equal and different arguments under the controlled scheduler. Every read/write of value.List's fields items, "
+             "itemsPresent, iterable, size (generated hooks at all 73 access sites) is a scheduling point and a race-checked access, so ALL sequentially consistent "
+             "interleavings at field granularity are explored; every vthread's outcome must equal its isolated outcome and no two conflicting accesses may be "
+             "unordered by happens-before.",
+        note=VS + " What a vthread reads from a hooked field enters its history as the identity of the write it observed, which keeps state-key pruning sound. "
+             "The only state shared between evaluations are the function's folded constants and the generator; weak-memory effects of a racy program are out of "
+             "reach, which is why the race itself is the reported violation (finding F11, known).",
+        technique="stateless model checking of concurrent evaluations under a controlled scheduler with field-granularity scheduling points and vector-clock race detection",
+        design_ref="DESIGN.md §3.3, §5 C11",
+    ),
+})
+
 NOT_YET = "check not built yet in this session (planned, see DESIGN.md §9); not claimed until its machinery exists"
 
 def main():
